@@ -2,6 +2,7 @@
   Helper lemmas for ThresholdOpenList / break_by_list (C16).
 -/
 import VotelibProofs.Lemmas.SortBy
+import VotelibProofs.Lemmas.NBest
 import VotelibModel.OpenList
 import Mathlib.Data.List.Perm.Lattice
 namespace VL
@@ -167,5 +168,217 @@ theorem sortDesc_filter_comm (P : Rat → Bool) (l : Votes) :
     · rw [List.filter_cons_of_neg (by simpa using hx)]
       simp only [sortDesc]
       rw [ih, insertDesc_filter_neg P x hx]
+
+/-! ### prefixes and first occurrences -/
+
+theorem idxOf_lt_of_mem_take {l : List Cand} {c : Cand} {k : Nat} (h : c ∈ l.take k) : l.idxOf c < k := by
+  induction l generalizing k with
+  | nil => simp at h
+  | cons x xs ih =>
+    cases k with
+    | zero => simp at h
+    | succ k =>
+      rw [List.take_succ_cons] at h
+      by_cases hx : x = c
+      · subst hx; rw [List.idxOf_cons_self]; omega
+      · rw [List.idxOf_cons_ne _ hx]
+        rcases List.mem_cons.mp h with h' | h'
+        · exact absurd h'.symm hx
+        · have := ih h'; omega
+
+theorem mem_take_of_idxOf_lt {l : List Cand} {d : Cand} {k : Nat} (hd : d ∈ l) (h : l.idxOf d < k) :
+    d ∈ l.take k := by
+  induction l generalizing k with
+  | nil => simp at hd
+  | cons x xs ih =>
+    cases k with
+    | zero => omega
+    | succ k =>
+      rw [List.take_succ_cons]
+      by_cases hx : x = d
+      · subst hx; exact List.mem_cons_self
+      · rw [List.idxOf_cons_ne _ hx] at h
+        rcases List.mem_cons.mp hd with h' | h'
+        · exact absurd h'.symm hx
+        · exact List.mem_cons_of_mem _ (ih h' (by omega))
+
+/-- in a list ordered by a strict relation, an element related to a member of a prefix is in that prefix -/
+theorem mem_take_of_pairwise {R : Cand → Cand → Prop} (hasym : ∀ a b, R a b → ¬ R b a)
+    {l : List Cand} (hp : l.Pairwise R) {c d : Cand} {k : Nat} (hc : c ∈ l.take k) (hd : d ∈ l)
+    (hdc : R d c) : d ∈ l.take k := by
+  have hsplit : l = l.take k ++ l.drop k := (List.take_append_drop k l).symm
+  rw [hsplit] at hd
+  rcases List.mem_append.mp hd with h | h
+  · exact h
+  · exfalso
+    rw [hsplit] at hp
+    exact hasym d c hdc ((List.pairwise_append.mp hp).2.2 c hc d h)
+
+/-! ### Tie.break_by_list -/
+
+theorem sameSet_refl (t : List Cand) : sameSet t t = true := by
+  simp [sameSet]
+
+theorem sameSet_mem {a b : List Cand} (h : sameSet a b = true) {x : Cand} (hx : x ∈ a) : x ∈ b := by
+  unfold sameSet at h
+  have h1 := (Bool.and_eq_true _ _).mp h
+  have := List.all_eq_true.mp h1.1 x hx
+  simpa using this
+
+theorem tsFind_tsSet (ts : TieState) (t rest : List Cand) : tsFind (tsSet ts t rest) t = some rest := by
+  simp [tsFind, tsSet, sameSet_refl]
+
+/-- every remaining-members entry of the `ties` dict only lists members of its tie -/
+def TsInv (ts : TieState) : Prop := ∀ e ∈ ts, ∀ x ∈ e.2, x ∈ e.1
+
+theorem tsInv_del {ts : TieState} (h : TsInv ts) (t : List Cand) : TsInv (tsDel ts t) :=
+  fun e he => h e (List.mem_filter.mp he).1
+
+theorem tsInv_set {ts : TieState} (h : TsInv ts) (t rest : List Cand) (hr : ∀ x ∈ rest, x ∈ t) :
+    TsInv (tsSet ts t rest) := by
+  intro e he
+  rcases List.mem_cons.mp he with rfl | he'
+  · exact hr
+  · exact tsInv_del h t e he'
+
+theorem tsFind_mem {ts : TieState} (h : TsInv ts) {t rem : List Cand} (hf : tsFind ts t = some rem) :
+    ∀ x ∈ rem, x ∈ t := by
+  unfold tsFind at hf
+  cases hfind : ts.find? (fun e => sameSet e.1 t) with
+  | none => rw [hfind] at hf; cases hf
+  | some e =>
+    rw [hfind] at hf
+    have hrem : e.2 = rem := by cases hf; rfl
+    have hm := List.mem_of_find?_eq_some hfind
+    have hs : sameSet e.1 t = true := List.find?_some (p := fun (e : List Cand × List Cand) => sameSet e.1 t) hfind
+    intro x hx
+    exact sameSet_mem hs (h e hm x (hrem ▸ hx))
+
+/-- what a place of the result may hold after tie-breaking -/
+def Resolves : Slot → Cand → Prop
+  | .cand c', c => c = c'
+  | .tie t, c => c ∈ t
+
+theorem breakLoop_resolves (breaker : List Cand) :
+    ∀ (el : List Slot) (ts : TieState) (r : List Cand), TsInv ts →
+      breakLoop breaker el ts = .ok r → List.Forall₂ Resolves el r := by
+  intro el
+  induction el with
+  | nil =>
+    intro ts r _ h
+    simp only [breakLoop] at h
+    cases h
+    exact List.Forall₂.nil
+  | cons s rest ih =>
+    intro ts r hinv h
+    cases s with
+    | cand c =>
+      simp only [breakLoop, bind, Except.bind] at h
+      split at h
+      · cases h
+      · rename_i r' hr'
+        cases h
+        exact List.Forall₂.cons rfl (ih ts r' hinv hr')
+    | tie t =>
+      simp only [breakLoop] at h
+      split at h
+      · rename_i rem hf
+        have hmem := tsFind_mem hinv hf
+        split at h
+        · cases h
+        · rename_i x xs
+          simp only [bind, Except.bind] at h
+          split at h
+          · cases h
+          · rename_i r' hr'
+            cases h
+            refine List.Forall₂.cons (hmem x List.mem_cons_self) (ih _ r' ?_ hr')
+            split
+            · exact tsInv_set hinv t xs (fun y hy => hmem y (List.mem_cons_of_mem _ hy))
+            · exact tsInv_del hinv t
+      · split at h
+        · split at h
+          · cases h
+          · rename_i x xs hsort
+            simp only [bind, Except.bind] at h
+            split at h
+            · cases h
+            · rename_i r' hr'
+              cases h
+              have hsub : ∀ y ∈ sortByIndex breaker t, y ∈ t := by
+                intro y hy
+                exact mem_dedupKeep.mp (mem_sortBy.mp hy)
+              rw [hsort] at hsub
+              exact List.Forall₂.cons (hsub x List.mem_cons_self)
+                (ih _ r' (tsInv_set hinv t xs (fun y hy => hsub y (List.mem_cons_of_mem _ hy))) hr')
+        · cases h
+
+theorem breakLoop_cands (breaker : List Cand) (pre : List Cand) (rest : List Slot) (ts : TieState) :
+    breakLoop breaker (pre.map Slot.cand ++ rest) ts =
+      (match breakLoop breaker rest ts with
+       | .ok r => .ok (pre ++ r)
+       | .error e => .error e) := by
+  induction pre with
+  | nil => simp only [List.map_nil, List.nil_append]; cases breakLoop breaker rest ts <;> rfl
+  | cons c cs ih =>
+    simp only [List.map_cons, List.cons_append, breakLoop, ih, bind, Except.bind]
+    cases breakLoop breaker rest ts <;> rfl
+
+/-- repeated places of one tie whose remaining members are already recorded: they are handed out in order -/
+theorem breakLoop_replicate_found (breaker : List Cand) (t : List Cand) :
+    ∀ (k : Nat) (ts : TieState) (rem : List Cand), tsFind ts t = some rem → k ≤ rem.length →
+      breakLoop breaker (List.replicate k (Slot.tie t)) ts = .ok (rem.take k) := by
+  intro k
+  induction k with
+  | zero => intro ts rem _ _; simp [breakLoop]
+  | succ k ih =>
+    intro ts rem hf hk
+    cases rem with
+    | nil => simp at hk
+    | cons x xs =>
+      simp only [List.replicate_succ, breakLoop, hf]
+      cases k with
+      | zero => simp [breakLoop, bind, Except.bind, pure, Except.pure]
+      | succ k' =>
+        have hlen : (x :: xs).length > 1 := by simp at hk ⊢; omega
+        rw [if_pos hlen, ih (tsSet ts t xs) xs (tsFind_tsSet ts t xs) (by simp at hk; omega)]
+        simp [bind, Except.bind, pure, Except.pure]
+
+/-- the places of a tie that was not met before: its members by list order, as many as there are places -/
+theorem breakLoop_replicate_new (breaker : List Cand) (t : List Cand) (k : Nat) (ts : TieState)
+    (hnew : tsFind ts t = none) (hall : ∀ c ∈ t, c ∈ breaker) (hk : k ≤ (sortByIndex breaker t).length) :
+    breakLoop breaker (List.replicate k (Slot.tie t)) ts = .ok ((sortByIndex breaker t).take k) := by
+  cases k with
+  | zero => simp [breakLoop]
+  | succ k =>
+    have hall' : (t.all fun c => breaker.contains c) = true := by
+      simpa [List.all_eq_true] using hall
+    cases hs : sortByIndex breaker t with
+    | nil => rw [hs] at hk; simp at hk
+    | cons x xs =>
+      rw [hs] at hk
+      simp only [List.replicate_succ, breakLoop, hnew, hall', if_true, hs]
+      rw [breakLoop_replicate_found breaker t k (tsSet ts t xs) xs (tsFind_tsSet ts t xs) (by simp at hk; omega)]
+      simp [bind, Except.bind, pure, Except.pure]
+
+/-- counting the level set -/
+theorem cntGe_eq_cntGt_add_level (votes : Votes) (t : Rat) :
+    cntGe votes t = cntGt votes t + (level votes t).length := by
+  unfold cntGe cntGt level
+  induction votes with
+  | nil => simp
+  | cons x xs ih =>
+    simp only [List.length_map] at ih ⊢
+    rcases lt_trichotomy x.2 t with h | h | h
+    · have h1 : ¬ t ≤ x.2 := not_le.mpr h
+      have h2 : ¬ t < x.2 := fun hh => h1 (le_of_lt hh)
+      have h3 : ¬ x.2 = t := ne_of_lt h
+      simp [h1, h2, h3, ih]
+    · have h1 : t ≤ x.2 := le_of_eq h.symm
+      have h2 : ¬ t < x.2 := by rw [h]; exact lt_irrefl _
+      simp [h, ih]; omega
+    · have h1 : t ≤ x.2 := le_of_lt h
+      have h3 : ¬ x.2 = t := ne_of_gt h
+      simp [h1, h, h3, ih]; omega
 
 end VL
